@@ -33,7 +33,9 @@ def spec_out(disk, o):
 def main(tier, seed):
     ck = Check("C13", tier, seed)
     tf = use_impl()
-    b = ck.build_proofs("Prop_C13", extra_targets=["Run.vo", "IO.vo"])
+    refused = []
+    # the storage's I/O calls are regenerated from storages.py (symbolic execution) and proved equal to the model's scripts (proofs/IOGenP.v)
+    b = ck.build_proofs("Prop_C13", pre=lambda: run_translator("py2coq_io.py", "tinyflux/storages.py", "gen/IOGen.v", refused), extra_targets=["Run.vo", "IO.vo"])
     n_cases = 18 if tier == "quick" else 150
     cases = iotie.io_cases(seed, n_cases, kinds=KINDS)
     # the very first writes into a fresh, empty database (its index starts out valid whatever auto_index says)
@@ -189,6 +191,7 @@ def main(tier, seed):
         ck.violation({"kind": "correspondence-broken", "what_no_longer_checks": "I/O-script correspondence: file states right after an injected I/O error vs IO.v crash_allowed (theorems C13_*)",
                       "history": h, "op": o, "auto_index": a, "observed_sizes": [len(x) for x in obs]}, no_input=True)
     ck.cov = {
+        "translator": dict(IO_TRANSLATOR_COV, refused=refused),
         "obligations": b["obligations"], "discharged": b["discharged"],
         "checker_cmd": "make -C /verif/coq Prop_C13.vo IO.vo Run.vo; Print Assumptions per theorem; allowed states evaluated with vm_compute",
         "trusted_base": TRUSTED_BASE_COMMON + [
